@@ -185,11 +185,43 @@ def inline_helpers(mod: Module, fn: FuncNode, cls: T.Optional[str], exclude: T.I
                 ast.fix_missing_locations(s)
             return out
 
+        def hoist(st: ast.stmt) -> T.Optional[T.List[ast.stmt]]:
+            """`xs.append(helper(a))` / `return f(helper(a))` ... -> `tmp = helper(a); xs.append(tmp)` for a statement-bodied helper
+            (the only such call of the statement, not inside a comprehension or lambda), then expanded like any `tmp = helper(a)`."""
+            if not isinstance(st, (ast.Expr, ast.Assign, ast.AugAssign, ast.Return, ast.AnnAssign)):
+                return None
+            inner_scopes = {id(x) for n in ast.walk(st) if isinstance(n, (ast.ListComp, ast.SetComp, ast.DictComp, ast.GeneratorExp, ast.Lambda)) for x in ast.walk(n)}
+            cands = []
+            for c in ast.walk(st):
+                if isinstance(c, ast.Call) and id(c) not in inner_scopes:
+                    r = _resolve(mod, cls, c, excl)
+                    if r is not None and _expr_bodied(r[0]) is None:
+                        cands.append((c, r[0]))
+            top = st.value if isinstance(st, (ast.Expr, ast.Assign, ast.AnnAssign, ast.Return)) else None
+            if len(cands) != 1 or cands[0][0] is top:
+                return None
+            call, h = cands[0]
+            tmp = f'_v__{h.name}'
+            pre = ast.copy_location(ast.Assign(targets=[ast.Name(id=tmp, ctx=ast.Store())], value=call, lineno=st.lineno), st)
+            exp = expand_stmt(pre)
+            if exp is None:
+                return None
+
+            class _Rep(ast.NodeTransformer):
+                def visit_Call(self, n: ast.Call) -> ast.AST:
+                    if n is call:
+                        return ast.copy_location(ast.Name(id=tmp, ctx=ast.Load()), n)
+                    self.generic_visit(n)
+                    return n
+            return exp + [_Rep().visit(st)]
+
         def walk_block(stmts: T.List[ast.stmt]) -> T.List[ast.stmt]:
             nonlocal changed
             res: T.List[ast.stmt] = []
             for st in stmts:
                 rep = expand_stmt(st)
+                if rep is None:
+                    rep = hoist(st)
                 if rep is not None:
                     changed = True
                     res.extend(rep)
